@@ -68,11 +68,11 @@ ENTRIES = []
 
 
 def entry(name, harness, tus, entries, sizes, opts=OPTS, quick_opts=("Os",), real_units=None, config="host",
-          backend="cadical", timeout=600, fsarray=256, desc="", secret="", public="", cdefs=(), expect_refused=False, control=False):
+          backend="cadical", timeout=600, fsarray=256, online=False, desc="", secret="", public="", cdefs=(), expect_refused=False, control=False):
     """sizes: list of dict(tag=, defs={..}, unwind=, unwindset=[..], tier=)"""
     ENTRIES.append(dict(name=name, harness=harness, tus=list(tus), entries=list(entries), sizes=sizes, opts=opts,
                         quick_opts=quick_opts, real_units=list(real_units if real_units is not None else tus),
-                        config=config, backend=backend, timeout=timeout, fsarray=fsarray, desc=desc, secret=secret, public=public,
+                        config=config, backend=backend, timeout=timeout, fsarray=fsarray, online=online, desc=desc, secret=secret, public=public,
                         cdefs=list(cdefs), expect_refused=expect_refused, control=control))
 
 
@@ -235,11 +235,11 @@ ECSTUB = "scalar bytes, point bytes, all data produced by the stubbed callees"
 ECPUB = "xlen, curve, addresses, bit-length header words; br_i15_{add,sub,montymul,modpow,decode_mod,encode,iszero} and br_ccopy are observation-only stubs (ctl arguments not logged)"
 entry("ec_prime_i15_drv_mul", "C08_ecdrv.c", ECP, ["api_mul"],
       [S("p256-x2", 240, FN=1, CURVE=23, XLEN=2), S("p256-x3", 240, FN=1, CURVE=23, XLEN=3, tier="thorough"), S("p384-x2", 240, FN=1, CURVE=24, XLEN=2, tier="thorough")],
-      quick_opts=("Os",), desc="control structure of ec_prime_i15 api_mul (point_decode, point_mul, point_encode, run_code) over observation-only big-integer stubs",
+      quick_opts=("Os",), online=True, timeout=1200, desc="control structure of ec_prime_i15 api_mul (point_decode, point_mul, point_encode, run_code) over observation-only big-integer stubs",
       secret=ECSTUB, public=ECPUB)
 entry("ec_prime_i15_drv_mulgen", "C08_ecdrv.c", ECP, ["api_mulgen"],
       [S("p256-x2", 240, FN=2, CURVE=23, XLEN=2, tier="thorough"), S("p384-x2", 240, FN=2, CURVE=24, XLEN=2, tier="thorough")],
-      quick_opts=("Os",), desc="control structure of ec_prime_i15 api_mulgen over observation-only big-integer stubs",
+      quick_opts=("Os",), online=True, timeout=1200, desc="control structure of ec_prime_i15 api_mulgen over observation-only big-integer stubs",
       secret=ECSTUB, public=ECPUB)
 entry("ec_p256_m15_p256_mul", "C08_ecmul.c", ["src/ec/ec_p256_m15.c"] + ECC, ["p256_mul"],
       [S("x1", 300, XLEN=1, tier="thorough")], opts=("Os",), real_units=["src/ec/ec_secp256r1.c"] + ECC, timeout=900,
@@ -526,9 +526,9 @@ def mkq(e, opt, sz, tv):
         uwd[k] = int(v)
     uw = ["%s:%d" % kv for kv in uwd.items()]
     return Q(qname(e, opt, sz), e["harness"],
-             defs=["-I" + GEN, "-DC08_GEN=\"%s_%s.c\"" % (e["name"], opt), "-DC08_LOGN=%d" % logn, "-DC08_DIVN=%d" % divn, "-DC08_LOGH=\"%s\"" % logh, "-DVLOG_MAX=200000"] + e["cdefs"] + size_defs(sz),
+             defs=["-I" + GEN, "-DC08_GEN=\"%s_%s.c\"" % (e["name"], opt), "-DC08_LOGN=%d" % logn, "-DC08_DIVN=%d" % divn, "-DC08_LOGH=\"%s\"" % logh, "-DVLOG_MAX=200000"] + (["-DC08_ONLINE=1"] if e["online"] else []) + e["cdefs"] + size_defs(sz),
              unwind=sz["unwind"], unwindset=uw, fsarray=e["fsarray"], backend=e["backend"], timeout=e["timeout"] if tier == "quick" else 900,
-             tier=tier, config=e["config"], checks=False, flags=["--no-standard-checks"],
+             tier=tier, config=e["config"], checks=False, flags=["--no-standard-checks"] + (["--paths", "lifo"] if e["online"] else []),
              desc="%s at clang -%s, %s: same branch/address/length/call-target/division-operand trace for all secrets (%s); public: %s; %d observations per run" %
                   (e["desc"], opt, sz["tag"], e["secret"], e["public"], tv["obs_max"]))
 
